@@ -553,7 +553,7 @@ def check_C10(chk):
                 "LfsText.CpDecode is LFS's reading rule over the generated Windows code page tables (complete single-byte pages, sampled "
                 "double-byte pages restricted to pairs on which sibling tables agree). TLC enumerates byte vectors (every high byte after every "
                 "single-byte marker, sampled pairs after their marker incl. trail byte 0x5E followed by marker letters, marker switches in all "
-                "orders, ^^ / ^8 / BOM-looking prefixes) and all strings up to the bound over a 14-class alphabet; to_lossy_string must equal "
+                "orders, ^^ / ^8 / BOM-looking prefixes) and all strings up to the bound over a 15-class alphabet; to_lossy_string must equal "
                 "CpDecode on defined bytes and to_lossy_bytes is accepted by postcondition (CpDecode(bytes) = text with '?' for characters in no "
                 "page; ASCII byte for byte); random text and bytes for totality.", maxlen=5 if chk.tier == "thorough" else 4)
     # the complete double-byte tables (every pair on which the family's independent tables agree): generated at check time,
@@ -585,7 +585,7 @@ def check_C11(chk):
 
 def check_C12(chk):
     _text_check(chk, {"Esc", "Unesc", "Strip", "Colour", "E2E", "Panic"},
-                "TLC enumerates all strings up to length 4 (quick) / 5 (thorough) over a 14-class alphabet (caret, digits incl. 8, escape letter, "
+                "TLC enumerates all strings up to length 4 (quick) / 5 (thorough) over a 15-class alphabet (caret, digits incl. 8, escape letter, "
                 "reserved characters, code page letters, ASCII, Latin-1, Cyrillic, double-byte with 0x5E trail, in no code page) with Esc / Unesc / "
                 "Strip; the laws (Unesc o Esc = id, no raw reserved character, Strip idempotent) are checked on the model; the real escape / "
                 "unescape / strip must agree and the end-to-end path unescape(decode(encode(escape(s)))) must give back s; random longer strings.",
